@@ -366,12 +366,7 @@ func (e mevent) toMsg(tag uint16, dotu bool) *wire.Msg {
 	case "read":
 		return &wire.Msg{Type: wire.Tread, Tag: tag, Fid: e.Fid, Offset: e.Offset, Count: e.Count}
 	case "write":
-		n := int(e.Count)
-		if n > 64 {
-			n = 64 // the count field is what is tested; the body is kept small
-		}
-		m := &wire.Msg{Type: wire.Twrite, Tag: tag, Fid: e.Fid, Offset: e.Offset, Data: make([]byte, n)}
-		return m
+		return &wire.Msg{Type: wire.Twrite, Tag: tag, Fid: e.Fid, Offset: e.Offset, Data: make([]byte, int(e.Count))}
 	case "stat":
 		return &wire.Msg{Type: wire.Tstat, Tag: tag, Fid: e.Fid}
 	case "wstat":
@@ -451,14 +446,7 @@ func runHistory(c mcfg, evs []mevent, probeFids []uint32, probeLast int) *histOb
 			logBefore := len(fs.Log)
 			framesBefore := len(cl.Collect())
 			m := e.toMsg(tag, c.Dotu)
-			if e.Op == "write" && int(e.Count) != len(m.Data) {
-				// announce a count larger than the (small) body: build by hand
-				raw := wire.Encode(m, c.Dotu)
-				put32(raw[19:], e.Count)
-				cl.SendRaw(raw)
-			} else {
-				cl.Send(c.Dotu, m)
-			}
+			cl.Send(c.Dotu, m)
 			vs.Idle()
 			so := stepObs{Valid: map[uint32]bool{}, PTok: map[uint32]int{}, PUser: map[uint32]string{}}
 			fr := cl.Collect()
